@@ -44,12 +44,26 @@ EXITCODE = 5
 OPTS = ["-q", "--template=" + projgen.TEMPLATE, "--inline-suppr", "--error-exitcode=%d" % EXITCODE, "--executor=process"]
 
 
-def run(root, jobs, fault=None, trace=True, timeout=60):
+# variant "bd": the same project with a (fresh) build directory, information messages and one file-specific suppression per
+# file that matches nothing - the worker then also writes its cache file (more crash points: AiOpen..AiClosed) and the parent
+# has work to do after the executor (whole-program stage over the cache files, unmatched-suppression reports that re-open them)
+VARIANTS = {
+    "plain": [],
+    "bd": ["--enable=information"] + ["--suppress=doesNotExist:%s" % f for f in SOURCES],
+}
+
+
+def run(root, jobs, fault=None, trace=True, timeout=60, variant="plain"):
     env = {}
     if fault:
         env["CPPCHECK_VERIF_FAULT"] = "child:evt:%d:%s:%s" % (fault["k"], fault["how"], fault["file"])
-    proj = {"opts": OPTS, "sources": SOURCES}
-    label = "c21/j%d/%s" % (jobs, "nofault" if not fault else "%s-%d-%s" % (fault["file"], fault["k"], fault["how"]))
+    label = "c21/%s/j%d/%s" % (variant, jobs, "nofault" if not fault else "%s-%d-%s" % (fault["file"], fault["k"], fault["how"]))
+    opts = OPTS + VARIANTS[variant]
+    if variant == "bd":
+        bd = "bd-" + vlib.digest([label, time.time()])
+        os.mkdir(os.path.join(root, bd))
+        opts = opts + ["--cppcheck-build-dir=" + bd]
+    proj = {"opts": opts, "sources": SOURCES}
     return runlayer.run_variant(proj, root, label, ["-j%d" % jobs], env=env, timeout=timeout, trace=trace)
 
 
@@ -94,7 +108,10 @@ def dead_files(r):
 def classify(b, points):
     """known-finding identity: which kind of crash point fails in which way"""
     f = b["fault"]
-    kind = points.get((f["file"], f["k"]), "?") if f["file"] != ".c" else "several-workers:" + points.get((SOURCES[0], f["k"]), "?")
+    v = f.get("variant", "plain")
+    kind = points.get((v, f["file"], f["k"]), "?") if f["file"] != ".c" else "several-workers:" + points.get((v, SOURCES[0], f["k"]), "?")
+    if v != "plain":
+        kind = v + ":" + kind
     return "%s@%s" % ("+".join(b["reasons"]), kind)
 
 
@@ -125,75 +142,90 @@ def main(tier, seed, replay=None):
     mc, mcviol = ((0, []), None) if replay else model_check(tier)
     root = runlayer.fresh_root("c21")
     projgen.materialize({"files": FILES}, root)
-    ref = run(root, 2)
-    if ref["rc"] != EXITCODE:
-        raise vlib.InfraError("reference run has unexpected exit status %s\n%s" % (ref["rc"], ref["err"][-500:]))
-    # what kind of event is crash point k of each file's worker
-    points = {}
-    nev = {}
-    for pid, evs in ref["raw"].items():
-        st = [e for e in evs if e.get("e") == "ChildStart"]
-        if not st:
-            continue
-        fname = st[0]["file"]
-        nev[fname] = len(evs)
-        for k, e in enumerate(evs):
-            kind = e["e"]
-            if kind == "Send":
-                kind = "Send-%s-frame%s" % (e["phase"], e["type"])
-            points[(fname, k)] = kind
-    faults = []
-    if replay:
-        payload = json.load(open(replay))
-        faults = [payload["fault"]]
-        jobs_list = [payload.get("jobs", 2)]
-    else:
-        files = [SOURCES[seed % len(SOURCES)]] if tier == "quick" else SOURCES
-        hows = ["KILL", "SEGV"] if tier == "quick" else ["KILL", "SEGV", "ABRT", "exit3"]
-        jobs_list = [2] if tier == "quick" else [2, 3, 4]
-        for f in files:
-            for k in range(nev.get(f, 0)):
-                for how in hows:
-                    faults.append({"file": f, "k": k, "how": how})
-        # several workers die in the same run: the fault context ".c" matches every worker, each dies at its k-th event
-        # (crashes close together, also of the last workers of the run: reaping and reporting must not depend on the order)
-        kmax = min(nev.values()) if nev else 0
-        for k in (range(kmax) if tier == "thorough" else sorted(set([0, 1, 2, 3, kmax // 2, max(0, kmax - 3), max(0, kmax - 2), max(0, kmax - 1)]))):
-            for how in hows[:2]:
-                faults.append({"file": ".c", "k": k, "how": how})
-    observations = []
-    tr_runs = []
-    runs_by_key = {}
+    payload = json.load(open(replay)) if replay else None
+    variants = [payload["fault"].get("variant", "plain")] if replay else ["plain", "bd"]
+    observations, tr_runs, bad, points, nev_all = [], [], [], {}, {}
+    judged = 0
+    ref_runs = []
+    for variant in variants:
+        ref = run(root, 2, variant=variant)
+        if ref["rc"] != EXITCODE:
+            raise vlib.InfraError("reference run (%s) has unexpected exit status %s\n%s" % (variant, ref["rc"], ref["err"][-500:]))
+        ref_runs.append(ref)
+        # what kind of event is crash point k of each file's worker
+        nev = {}
+        for pid, evs in ref["raw"].items():
+            st = [e for e in evs if e.get("e") == "ChildStart"]
+            if not st:
+                continue
+            fname = st[0]["file"]
+            nev[fname] = len(evs)
+            for k, e in enumerate(evs):
+                kind = e["e"]
+                if kind == "Send":
+                    kind = "Send-%s-frame%s" % (e["phase"], e["type"])
+                points[(variant, fname, k)] = kind
+        nev_all[variant] = nev
+        faults = []
+        if replay:
+            faults = [dict(payload["fault"], variant=variant)]
+            jobs_list = [payload.get("jobs", 2)]
+        else:
+            files = [SOURCES[seed % len(SOURCES)]] if tier == "quick" else SOURCES
+            hows = ["KILL", "SEGV"] if tier == "quick" else ["KILL", "SEGV", "ABRT", "exit3"]
+            if variant == "bd" and tier == "quick":
+                hows = ["KILL"]
+            jobs_list = [2] if tier == "quick" else [2, 3, 4]
+            for f in files:
+                for k in range(nev.get(f, 0)):
+                    if tier == "quick" and variant == "bd":
+                        # quick: every cache-file, pipe and framing event of the worker, every 4th of the other events
+                        kind = points[(variant, f, k)]
+                        if not (kind.startswith(("Ai", "Send", "Sent", "Child", "Check")) or k % 4 == seed % 4):
+                            continue
+                    for how in hows:
+                        faults.append({"file": f, "k": k, "how": how, "variant": variant})
+            # several workers die in the same run: the fault context ".c" matches every worker, each dies at its k-th event
+            # (crashes close together, also of the last workers of the run: reaping and reporting must not depend on the order)
+            kmax = min(nev.values()) if nev else 0
+            for k in (range(kmax) if tier == "thorough" else sorted(set([0, 1, 2, 3, kmax // 2, max(0, kmax - 3), max(0, kmax - 2), max(0, kmax - 1)]))):
+                for how in hows[:2]:
+                    faults.append({"file": ".c", "k": k, "how": how, "variant": variant})
+        vobs = []
 
-    def do(args):
-        fault, jobs = args
-        r = run(root, jobs, fault, trace=True)
-        return fault, jobs, r
+        def do(args):
+            fault, jobs = args
+            r = run(root, jobs, fault, trace=True, variant=fault["variant"])
+            return fault, jobs, r
 
-    work = [(f, j) for f in faults for j in jobs_list]
-    with concurrent.futures.ThreadPoolExecutor(max_workers=min(8, vlib.NCPU)) as ex:
-        for fault, jobs, r in ex.map(do, work):
-            dead = dead_files(r)
-            o = {"fault": dict(fault, jobs=jobs), "died": bool(dead), "dead": dead, "timeout": r["rc"] is None,
-                 "exit": -999 if r["rc"] is None else r["rc"], "findings": fobs(r)}
-            observations.append(o)
-            runs_by_key[(fault["file"], fault["k"], fault["how"], jobs)] = r
-            if r["hdr"] is not None and r["rc"] is not None:
-                tr_runs.append((r["label"], r["hdr"], r["events"]))
-    # a hang is judged by a wall-clock limit; on a heavily loaded machine a run can exceed 60 s without hanging, so every
-    # run that hit the limit is executed again, alone, with 300 s, and only that second result counts
-    for i, o in enumerate(observations):
-        if o["timeout"]:
-            fault = {k: o["fault"][k] for k in ("file", "k", "how")}
-            r = run(root, o["fault"]["jobs"], fault, trace=True, timeout=300)
-            dead = dead_files(r)
-            observations[i] = {"fault": o["fault"], "died": bool(dead), "dead": dead, "timeout": r["rc"] is None,
-                               "exit": -999 if r["rc"] is None else r["rc"], "findings": fobs(r), "second_execution": True}
+        work = [(f, j) for f in faults for j in jobs_list]
+        with concurrent.futures.ThreadPoolExecutor(max_workers=min(8, vlib.NCPU)) as ex:
+            for fault, jobs, r in ex.map(do, work):
+                dead = dead_files(r)
+                o = {"fault": dict(fault, jobs=jobs), "died": bool(dead), "dead": dead, "timeout": r["rc"] is None,
+                     "exit": -999 if r["rc"] is None else r["rc"], "findings": fobs(r)}
+                vobs.append(o)
+                if r["hdr"] is not None and r["rc"] is not None:
+                    tr_runs.append((r["label"], r["hdr"], r["events"]))
+        # a hang is judged by a wall-clock limit; on a heavily loaded machine a run can exceed 60 s without hanging, so every
+        # run that hit the limit is executed again, alone, with 300 s, and only that second result counts
+        for i, o in enumerate(vobs):
+            if o["timeout"]:
+                fault = {k: o["fault"][k] for k in ("file", "k", "how")}
+                r = run(root, o["fault"]["jobs"], fault, trace=True, timeout=300, variant=variant)
+                dead = dead_files(r)
+                vobs[i] = {"fault": o["fault"], "died": bool(dead), "dead": dead, "timeout": r["rc"] is None,
+                           "exit": -999 if r["rc"] is None else r["rc"], "findings": fobs(r), "second_execution": True}
+        j, b = judge(ref, vobs)
+        judged += j
+        bad += b
+        observations += vobs
     runlayer.cleanup(root)
-    judged, bad = judge(ref, observations)
+    ref = ref_runs[0]
+    nev = nev_all
     # trace validation: a sample of the faulted runs (each is a different crash point) + the reference run
     step = max(1, len(tr_runs) // (60 if tier == "quick" else 400))
-    tres = runtrace.validate([(ref["label"], ref["hdr"], ref["events"])] + tr_runs[::step], keep_dir=os.path.join(vlib.OUT, "replays", PID))
+    tres = runtrace.validate([(r_["label"], r_["hdr"], r_["events"]) for r_ in ref_runs] + tr_runs[::step], keep_dir=os.path.join(vlib.OUT, "replays", PID))
     violations = []
     if mcviol:
         p = vlib.save_replay(PID, "model-sc%d" % mcviol["scenario"], mcviol)
@@ -201,9 +233,9 @@ def main(tier, seed, replay=None):
         mc = (0, [])
     for b in bad:
         f = b["fault"]
-        p = vlib.save_replay(PID, "fault-%s-%d-%s-j%d" % (f["file"], f["k"], f["how"], f["jobs"]), {"fault": {k: f[k] for k in ("file", "k", "how")}, "jobs": f["jobs"], "judgement": b})
+        p = vlib.save_replay(PID, "fault-%s-%s-%d-%s-j%d" % (f.get("variant", "plain"), f["file"], f["k"], f["how"], f["jobs"]), {"fault": {k: f[k] for k in ("file", "k", "how", "variant") if k in f}, "jobs": f["jobs"], "judgement": b})
         violations.append({"key": classify(b, points), "what": "worker of %s killed (%s) at its event %d (%s), -j%d: %s; exit=%s missing=%s" % (
-            f["file"], f["how"], f["k"], points.get((f["file"], f["k"])), f["jobs"], b["reasons"], b["exit"], b["missing"][:2]), "replay": p})
+            f["file"], f["how"], f["k"], points.get((f.get("variant", "plain"), f["file"], f["k"])), f["jobs"], b["reasons"], b["exit"], b["missing"][:2]), "replay": p})
     for rj in tres.rejected:
         p = vlib.save_replay(PID, "trace-" + vlib.digest(rj["label"]), rj)
         violations.append({"key": "trace:%s:%s" % ((rj["event"] or {}).get("e"), rj["invariant"]),
@@ -218,9 +250,10 @@ def main(tier, seed, replay=None):
         return 0
     rc, new, known = vlib.verdict(PID, violations)
     kinds = sorted(set(points.values()))
+    nev = nev_all
     cov = {"evaluations": len(observations), "distinct_nontrivial": judged,
-           "rule": "one run per (file, event index of its worker, way of dying, job count); non-trivial = the fault point was reached and the worker died",
-           "exhaustive": True, "crash_point_kinds": kinds, "events_per_worker": nev,
+           "rule": "one run per (variant plain / build-dir+information, file, event index of its worker, way of dying, job count) plus faults that kill every worker at its k-th event; quick takes one file, all its event indices in the plain variant and every cache/pipe/framing event + every 4th other event in the build-dir variant; non-trivial = the fault point was reached and a worker died",
+           "exhaustive": tier == "thorough", "crash_point_kinds": kinds, "events_per_worker": nev,
            "traces_validated_against_impl": tres.validated, "trace_rejected": len(tres.rejected), "bad": len(bad),
            "states": mc[0], "samples": mc[1] + observations[:2] + observations[-1:]}
     vlib.write_evidence(PID, tier, seed, "fault_enumeration", cov, time.time() - t0, violations=new,
